@@ -22,3 +22,8 @@ Proof. exact old_value_readable. Qed.
 
 Theorem C15_value_is_some_fetch : forall es v, r_value (rrun es) = Some v -> In v (map fst (r_fetches (rrun es))).
 Proof. exact value_is_some_fetch. Qed.
+
+(* an effect that feeds the value back into the dependency (behind a selector) only adds dependency writes: every history with
+   such a feedback edge is a plain history of writes and completions, so the theorems above cover it *)
+Theorem C15_feedback_is_plain : forall es, exists es', fold_left rstep_fb es rinit = rrun es'.
+Proof. intros es. exact (fb_is_plain es rinit). Qed.
